@@ -24,6 +24,10 @@ PROPS = {
              "Seeded search over interleavings of 2-4 clients calling SetBallot/SetProposal/lookups on colliding keys of a real TempPool over real goleveldb (memory storage); history checked with porcupine against a write-once register per key; quiescent reads stable, byte-identical, consistent by hash and by point, unchanged after re-creating the pool; clean-up daemon run on the fake clock must only remove entries at least the configured depth (read from the pool) below the newest height.",
              "trusted: porcupine, harness identification of returned objects by bytes; goleveldb runs as shipped on memory storage",
              SIM + "; porcupine write-once-register model + quiescent invariants"),
+    "C22": P("storeh",
+             "Seeded search over operation-pool histories (SetOperation with re-signed duplicates of a fact, OperationHashes with random limits and reject-set filters, re-adds, pool restarts) on a real TempPool over goleveldb, sequentially and with 2-3 concurrent clients; every result is judged against the statement: at most L entries, distinct operations and facts, stored, passing the filter, never a previously filtered-out operation, most recently added operation per fact.",
+             "trusted: harness bookkeeping of adds and filter decisions; recency by the fake clock",
+             SIM + "; per-call reference oracle over the recorded history"),
 }
 
 NOT_APPLICABLE = {
